@@ -19,8 +19,8 @@ VARIABLE out
 \* argument token domains, by parameter kind
 BK  == {"b:k", "b:nil", "b:empty", "nb:k", "empty:k", "b:x|y", "a|b:k", "b:zz"}   \* (bucket, key) pairs
 BKq == {"b:k", "b:nil", "nb:k", "empty:k", "b:x|y"}
-V   == {"v", "nil", "empty"}
-VS  == {"none", "v", "v,v", "nil", "empty,x|y"}                       \* variadic values
+V   == {"v", "nil", "empty", "a"}                                     \* "a": an element of the preloaded list and set
+VS  == {"none", "v", "v,v", "nil", "empty,x|y", "a,b"}                \* variadic values
 I   == {"min", "-5", "-1", "0", "1", "2", "5", "max"}
 Iq  == {"min", "-1", "0", "2", "max"}
 F   == {"nan", "+inf", "-inf", "0", "1.5", "-1"}
